@@ -3,7 +3,7 @@
    exceeds the number of characters still to be read ([t_rem]); [t_fuel] is
    that number plus two. *)
 From Coq Require Import String List NArith ZArith Bool Lia.
-From IonV Require Import Base.Wire Text.Tokenizer Text.Skipper.
+From IonV Require Import Base.Wire Base.Utf8 Text.Tokenizer Text.Skipper.
 Import ListNotations.
 Open Scope Z_scope.
 
@@ -373,11 +373,25 @@ Proof.
   induction n as [|n IH]; intros v t; cbn [read_hex_escape_seq]; [apply ni_ret|].
   apply ni_bind; [apply nonincr_read|]. intros c t1 _. destruct (from_hex c); [apply IH|exact I].
 Qed.
+Lemma nonincr_surrogate_pair hi : nonincr (read_surrogate_pair hi).
+Proof.
+  intros t. unfold read_surrogate_pair. destruct (56320 <=? hi); [exact I|].
+  apply ni_bind; [apply nonincr_expect|]. intros u1 t1 _.
+  apply ni_bind; [apply nonincr_expect|]. intros u2 t2 _.
+  apply ni_bind; [apply nonincr_hex_escape|]. intros lo t3 _.
+  match goal with |- ni (if ?b then _ else _) _ => destruct b end; [exact I|apply ni_ret].
+Qed.
 Lemma nonincr_escaped_char k : nonincr (read_escaped_char k).
 Proof.
   intros t. unfold read_escaped_char. apply ni_bind; [apply nonincr_read|]. intros c t1 _.
   destruct (simple_escape c); [apply ni_ret|].
-  repeat match goal with |- ni (if ?b then _ else _) _ => destruct b end; try exact I; apply nonincr_hex_escape.
+  destruct (c =? 85).
+  { destruct k; [exact I|]. apply ni_bind; [apply nonincr_hex_escape|]. intros r t2 _.
+    match goal with |- ni (if ?b then _ else _) _ => destruct b end; [exact I|apply ni_ret]. }
+  destruct (c =? 117).
+  { destruct k; [exact I|]. apply ni_bind; [apply nonincr_hex_escape|]. intros r t2 _.
+    destruct (is_surrogate r); [apply nonincr_surrogate_pair|apply ni_ret]. }
+  destruct (c =? 120); [apply nonincr_hex_escape|exact I].
 Qed.
 Lemma nonincr_backslash k : nonincr (process_backslash k).
 Proof.
@@ -387,13 +401,16 @@ Proof.
   - apply ni_bind; [apply nonincr_escaped_char|]. intros; apply ni_ret.
 Qed.
 
+Lemma ni_check_utf8 v t : ni (check_utf8 v) t.
+Proof. unfold check_utf8. destruct (utf8_valid v); [apply ni_ret|exact I]. Qed.
+
 Lemma string_loop_progress : forall fuel w t, (t_rem t < fuel)%nat -> ni (read_string_loop fuel w) t.
 Proof.
   induction fuel as [|f IH]; intros w t Hf; [lia|]. cbn [read_string_loop].
   apply (ni_read_loop _ f); [exact Hf|]. intros c t1 R1 R2.
   destruct (Z.eq_dec c (-1)) as [->|Hc]; [exact I|]. specialize (R2 Hc).
   match goal with |- ni (if ?b then _ else _) _ => destruct b end; [exact I|].
-  destruct (c =? c_dquote); [apply ni_ret|].
+  destruct (c =? c_dquote); [apply ni_check_utf8|].
   destruct (c =? c_bslash); [|apply IH; exact R2].
   apply ni_bind; [apply nonincr_backslash|]. intros bs t2 E2.
   pose proof (nonincr_backslash false t1) as H. unfold ni in H. rewrite E2 in H. apply IH. lia.
@@ -415,7 +432,8 @@ Proof.
   apply (ni_read_loop _ f); [exact Hf|]. intros c t1 R1 R2.
   destruct (Z.eq_dec c (-1)) as [->|Hc]; [exact I|]. specialize (R2 Hc).
   match goal with |- ni (if ?b then _ else _) _ => destruct b end; [exact I|].
-  destruct (c =? c_quote); [apply ni_ret|].
+  match goal with |- ni (if ?b then _ else _) _ => destruct b end; [exact I|].
+  destruct (c =? c_quote); [apply ni_check_utf8|].
   destruct (c =? c_bslash); [|apply IH; exact R2].
   apply ni_bind; [apply nonincr_peek|]. intros c2 t2 E2.
   pose proof (nonincr_peek t1) as H. unfold ni in H. rewrite E2 in H.
@@ -425,16 +443,18 @@ Proof.
   - apply ni_bind; [apply nonincr_escaped_char|]. intros r t3 E3.
     pose proof (nonincr_escaped_char false t2) as H3. unfold ni in H3. rewrite E3 in H3. apply IH. lia.
 Qed.
-Lemma long_string_loop_progress : forall fuel w t, (t_rem t < fuel)%nat -> ni (read_long_string_loop fuel w) t.
+Lemma long_string_loop_progress : forall fuel w seg t, (t_rem t < fuel)%nat -> ni (read_long_string_loop fuel w seg) t.
 Proof.
-  induction fuel as [|f IH]; intros w t Hf; [lia|]. cbn [read_long_string_loop].
+  induction fuel as [|f IH]; intros w seg t Hf; [lia|]. cbn [read_long_string_loop].
   apply (ni_read_loop _ f); [exact Hf|]. intros c t1 R1 R2.
   destruct (Z.eq_dec c (-1)) as [->|Hc]; [exact I|]. specialize (R2 Hc).
   match goal with |- ni (if ?b then _ else _) _ => destruct b end; [exact I|].
   destruct (c =? c_quote).
   { apply ni_bind; [apply nonincr_end_of_long_string|]. intros [e cns] t2 E2.
     pose proof (nonincr_end_of_long_string HSkipComments t1) as H. unfold ni in H. rewrite E2 in H.
-    destruct e; [apply ni_ret|]. destruct (negb cns); apply IH; lia. }
+    destruct cns.
+    - destruct (negb (utf8_valid (rev seg))); [exact I|]. destruct e; [apply ni_ret|apply IH; lia].
+    - destruct e; [apply ni_ret|apply IH; lia]. }
   destruct (c =? c_bslash); [|apply IH; exact R2].
   apply ni_bind; [apply nonincr_backslash|]. intros bs t2 E2.
   pose proof (nonincr_backslash false t1) as H. unfold ni in H. rewrite E2 in H. apply IH. lia.
@@ -513,14 +533,26 @@ Proof.
   specialize (IH c2 t1 ltac:(lia)). unfold ni in IH.
   destruct (skip_blob_loop f c2 t1) as [[u t2]| | |]; auto. lia.
 Qed.
+Lemma nonincr_skip_lob_whitespace : nonincr t_skip_lob_whitespace.
+Proof.
+  intros t. unfold ni. pose proof (lob_whitespace_hand t) as H.
+  destruct (t_skip_lob_whitespace t) as [[[c s0] t1]| | |]; auto. lia.
+Qed.
 Lemma nonincr_skip_blob_helper : nonincr skip_blob_helper.
 Proof.
-  intros t. unfold skip_blob_helper. unfold ni, mbind at 1. pose proof (lob_whitespace_hand t) as H.
-  destruct (t_skip_lob_whitespace t) as [[[c s0] t1]| | |]; auto.
-  assert (Hk : ni (tdo _ <- with_fuel (fun f => skip_blob_loop f c); t_expect (fun c0 => c0 =? c_rbrace)) t1).
-  { apply ni_bind; [apply nonincr_with_fuel; intros; apply skip_blob_loop_progress; assumption|].
-    intros; apply nonincr_expect. }
-  unfold ni in Hk. match goal with |- match ?k t1 with _ => _ end => destruct (k t1) as [[u t2]| | |] end; auto. lia.
+  intros t. unfold skip_blob_helper. apply ni_bind; [apply nonincr_skip_lob_whitespace|]. intros [c s0] t1 _.
+  apply ni_bind.
+  { destruct (c =? c_dquote).
+    - apply ni_bind; [apply nonincr_skip_string_helper|]. intros u t2 _.
+      apply ni_bind; [apply nonincr_skip_lob_whitespace|]. intros [c2 s2] t3 _. apply ni_ret.
+    - destruct (c =? c_quote); [|apply ni_ret].
+      apply ni_bind; [apply nonincr_is_triple_quote|]. intros ok t2 _.
+      destruct (negb ok); [exact I|].
+      apply ni_bind; [apply nonincr_skip_long_string_helper|]. intros u t3 _.
+      apply ni_bind; [apply nonincr_skip_lob_whitespace|]. intros [c2 s2] t4 _. apply ni_ret. }
+  intros c' t2 _.
+  apply ni_bind; [apply nonincr_with_fuel; intros; apply skip_blob_loop_progress; assumption|].
+  intros; apply nonincr_expect.
 Qed.
 Lemma read_blob_loop_progress : forall fuel w t, (t_rem t < fuel)%nat -> ni (read_blob_loop fuel w) t.
 Proof.
@@ -535,21 +567,23 @@ Proof.
 Qed.
 
 (* skipContainerHelper: nested containers, strings, symbols, lobs and comments inside; never out of fuel *)
-Lemma skip_container_progress : forall fuel term t, (t_rem t < fuel)%nat -> ni (skip_container_helper fuel term) t.
+Lemma skip_container_loop_progress : forall fuel top terms t,
+  (t_rem t < fuel)%nat -> ni (skip_container_loop fuel top terms) t.
 Proof.
-  induction fuel as [|f IH]; intros term t Hf; [lia|]. cbn [skip_container_helper].
+  induction fuel as [|f IH]; intros top terms t Hf; [lia|]. cbn [skip_container_loop].
   unfold ni, mbind at 1. pose proof (skip_whitespace_hand t) as H.
   destruct (t_skip_whitespace t) as [[[c s0] t1]| | |]; auto.
   destruct (c =? -1) eqn:C; [exact I|].
   assert (W : wt c = 1%nat) by (unfold wt; rewrite C; reflexivity).
   assert (Hf1 : (t_rem t1 < f)%nat) by lia.
   (* every branch: something that does not give characters back, then the loop again *)
-  assert (Hthen : forall (m : M unit), ni m t1 -> ni (tdo _ <- m; skip_container_helper f term) t1).
-  { intros m Hm. apply ni_bind; [exact Hm|]. intros u t2 E2. unfold ni in Hm. rewrite E2 in Hm. apply IH. lia. }
+  assert (Hthen : forall (m : M unit) top' terms', ni m t1 -> ni (tdo _ <- m; skip_container_loop f top' terms') t1).
+  { intros m top' terms' Hm. apply ni_bind; [exact Hm|]. intros u t2 E2. unfold ni in Hm. rewrite E2 in Hm. apply IH. lia. }
   assert (Hgoal : forall k : M unit, ni k t1 ->
             match k t1 with Ok (_, t') => (t_rem t' <= t_rem t)%nat | OutOfFuel => False | _ => True end).
   { intros k Hk. unfold ni in Hk. destruct (k t1) as [[u t2]| | |]; auto. lia. }
-  destruct (c =? term); [unfold ret; lia|].
+  destruct (c =? top).
+  { destruct terms as [|t0 rest]; [unfold ret; lia|apply Hgoal, IH, Hf1]. }
   destruct (c =? c_dquote); [apply Hgoal, Hthen, nonincr_skip_string_helper|].
   destruct (c =? c_quote).
   { apply Hgoal. apply ni_bind; [apply nonincr_is_triple_quote|]. intros ok t2 E2.
@@ -560,19 +594,23 @@ Proof.
     { destruct ok; [pose proof (nonincr_skip_long_string_helper HSkipComments t2) as K|pose proof (nonincr_skip_symbol_quoted_helper t2) as K];
         unfold ni in K; rewrite E3 in K; exact K. }
     apply IH. lia. }
-  destruct (c =? c_lparen); [apply Hgoal, Hthen, IH, Hf1|].
-  destruct (c =? c_lbracket); [apply Hgoal, Hthen, IH, Hf1|].
+  destruct (c =? c_lparen); [apply Hgoal, IH, Hf1|].
+  destruct (c =? c_lbracket); [apply Hgoal, IH, Hf1|].
   destruct (c =? c_lbrace); [|apply Hgoal, IH, Hf1].
   apply Hgoal. apply ni_bind; [apply nonincr_peek|]. intros c2 t2 E2.
   pose proof (nonincr_peek t1) as H2. unfold ni in H2. rewrite E2 in H2.
-  assert (Hm : forall m : M unit, ni m t2 -> ni (tdo _ <- m; skip_container_helper f term) t2).
-  { intros m Hm. apply ni_bind; [exact Hm|]. intros u t3 E3. unfold ni in Hm. rewrite E3 in Hm. apply IH. lia. }
-  apply Hm. destruct (c2 =? c_lbrace).
-  - apply ni_bind; [apply nonincr_read|]. intros c3 t3 E3. apply nonincr_skip_blob_helper.
+  destruct (c2 =? c_lbrace).
+  - apply ni_bind; [apply nonincr_read|]. intros c3 t3 E3.
+    pose proof (nonincr_read t2) as H3. unfold ni in H3. rewrite E3 in H3.
+    apply ni_bind; [apply nonincr_skip_blob_helper|]. intros u t4 E4.
+    pose proof (nonincr_skip_blob_helper t3) as H4. unfold ni in H4. rewrite E4 in H4. apply IH. lia.
   - destruct (c2 =? c_rbrace).
-    + apply ni_bind; [apply nonincr_read|]. intros; apply ni_ret.
+    + apply ni_bind; [apply nonincr_read|]. intros c3 t3 E3.
+      pose proof (nonincr_read t2) as H3. unfold ni in H3. rewrite E3 in H3. apply IH. lia.
     + apply IH. lia.
 Qed.
+Lemma skip_container_progress : forall fuel term t, (t_rem t < fuel)%nat -> ni (skip_container_helper fuel term) t.
+Proof. intros. unfold skip_container_helper. apply skip_container_loop_progress. assumption. Qed.
 Lemma skip_container_contents_progress c t : t_skip_container_contents c t <> OutOfFuel.
 Proof.
   pose proof (nonincr_with_fuel (fun f => skip_container_helper f (term_of c))
@@ -586,7 +624,7 @@ Proof.
 Qed.
 Lemma read_long_string_progress t : read_long_string t <> OutOfFuel.
 Proof.
-  pose proof (nonincr_with_fuel (fun f => read_long_string_loop f []) (fun f t0 H => long_string_loop_progress f [] t0 H) t) as H.
+  pose proof (nonincr_with_fuel (fun f => read_long_string_loop f [] []) (fun f t0 H => long_string_loop_progress f [] [] t0 H) t) as H.
   unfold ni in H. unfold read_long_string. intros E. rewrite E in H. exact H.
 Qed.
 Lemma read_quoted_symbol_progress t : read_quoted_symbol t <> OutOfFuel.
@@ -602,3 +640,18 @@ Proof.
   - pose proof (nonincr_with_fuel (fun f => read_long_clob_loop f []) (fun f t0 H => long_clob_loop_progress f [] t0 H) t) as H.
     unfold ni in H. unfold read_long_clob. intros E. rewrite E in H. exact H.
 Qed.
+
+(* readPlainDigits (exponents, fractional seconds) *)
+Lemma plain_digits_loop_progress : forall fuel c w t,
+  (S (t_rem t) < fuel)%nat -> read_plain_digits_loop fuel c w t <> OutOfFuel.
+Proof.
+  induction fuel as [|f IH]; intros c w t Hf; [lia|].
+  cbn [read_plain_digits_loop]. destruct (is_digit c) eqn:D; [|discriminate].
+  unfold mbind. destruct (t_read t) as [[c2 t1]| | |] eqn:Er; try discriminate; try (exfalso; exact (read_not_oof _ Er)).
+  destruct (read_rem _ _ _ Er) as [H1 H2].
+  destruct (is_digit c2) eqn:D2.
+  - assert (Hc : c2 <> -1) by (intros ->; discriminate). specialize (H2 Hc). apply IH. lia.
+  - destruct f; [lia|]. cbn [read_plain_digits_loop]. rewrite D2. discriminate.
+Qed.
+Lemma read_plain_digits_progress c w t : read_plain_digits c w t <> OutOfFuel.
+Proof. unfold read_plain_digits, with_fuel. apply plain_digits_loop_progress. unfold t_fuel. lia. Qed.
